@@ -137,3 +137,13 @@ def canonical_json(obj) -> str:
 
 def stable_hash(obj) -> str:
     return hashlib.sha256(canonical_json(obj).encode()).hexdigest()[:16]
+
+
+def task_exc(task):
+    """Exception of a finished task. A task that ended *cancelled* although nobody in the harness cancelled it (a
+    CancelledError leaked from the library into its caller's task) is reported as having raised CancelledError
+    instead of blowing up the harness with Task.exception()'s own CancelledError."""
+    import asyncio
+    if task.cancelled():
+        return asyncio.CancelledError()
+    return task.exception()
